@@ -148,62 +148,70 @@ Qed.
 Lemma dk_contribute_accept : forall phase d s c dec n d',
   dk_contribute phase d s c dec n = (d', DAccept) ->
   phase = ph_Contribute /\ dk_mem s (dk_miners d) = true /\ dec = true /\ n = dk_T d /\
-  dk_mem c (dk_mpks d) = false /\ dk_mpks d' = c :: dk_mpks d /\ dk_miners d' = dk_miners d /\ dk_T d' = dk_T d.
+  dk_mem s (dk_mpks d) = false /\ dk_mpks d' = s :: dk_mpks d /\ dk_miners d' = dk_miners d /\ dk_T d' = dk_T d.
 Proof.
   intros phase d s c dec n d' H. unfold dk_contribute in H.
   destruct (Z.eqb_spec phase ph_Contribute) as [E|]; [|discriminate]. cbn [negb] in H.
   destruct (dk_mem s (dk_miners d)); [|discriminate]. cbn [negb] in H.
   destruct dec; [|discriminate]. cbn [negb] in H.
   destruct (Z.eqb_spec n (dk_T d)) as [E2|]; [|discriminate]. cbn [negb] in H.
-  destruct (dk_mem c (dk_mpks d)) eqn:M; [discriminate|].
+  destruct (dk_mem s (dk_mpks d)) eqn:M; [discriminate|].
   inversion H; subst. cbn. repeat split; reflexivity.
 Qed.
 
 Lemma dk_mem_cons : forall x l, dk_mem x (x :: l) = true.
 Proof. intros. unfold dk_mem. cbn. rewrite Z.eqb_refl. reflexivity. Qed.
 
-(* an id that has an MPK cannot get a second one while the list is kept *)
+(* a miner that has an MPK cannot get a second one while the list is kept, whatever id the input names *)
 Lemma dk_contribute_once : forall phase d s c dec n,
-  dk_mem c (dk_mpks d) = true -> snd (dk_contribute phase d s c dec n) = DReject.
+  dk_mem s (dk_mpks d) = true -> snd (dk_contribute phase d s c dec n) = DReject.
 Proof.
   intros. unfold dk_contribute.
   repeat match goal with |- context [if ?c then _ else _] => destruct c end; try reflexivity; discriminate.
 Qed.
 
+(* the id named by the input has no influence at all *)
+Lemma dk_contribute_ignores_claim : forall phase d s c c' dec n,
+  dk_contribute phase d s c dec n = dk_contribute phase d s c' dec n.
+Proof. reflexivity. Qed.
+
 Definition so_entry_ok (e : so_entry) : Prop :=
-  match e with SoNil => True | SoSign ok => ok = true | SoShare h v => h = true /\ v = true end.
+  match e with SoNil => False | SoSign ok => ok = true | SoShare h v => h = true /\ v = true end.
 
 Lemma so_validate_accept : forall idk es, so_validate idk es = DAccept -> Forall so_entry_ok es.
 Proof.
   induction es as [|e tl IH]; intro H; [constructor|].
   destruct e as [|ok|h v]; cbn [so_validate] in H.
-  - constructor; [exact I | auto].
+  - discriminate.
   - destruct ok; [|discriminate]. constructor; [reflexivity | auto].
   - destruct h; cbn [negb] in H; [|discriminate]. destruct idk; cbn [negb] in H; [|discriminate].
     destruct v; [|discriminate]. constructor; [split; reflexivity | auto].
 Qed.
 
-Lemma so_validate_no_panic : forall es, so_validate true es <> DPanic.
+Lemma so_validate_no_panic : forall idk es, so_validate idk es <> DPanic.
 Proof.
   induction es as [|e tl IH]; [discriminate|].
-  destruct e as [|ok|h v]; cbn [so_validate]; auto.
+  destruct e as [|ok|h v]; cbn [so_validate]; try discriminate.
   - destruct ok; [auto|discriminate].
-  - destruct h; cbn [negb]; [|discriminate]. destruct v; [auto|discriminate].
+  - destruct h; cbn [negb]; [|discriminate]. destruct idk; cbn [negb]; [|discriminate]. destruct v; [auto|discriminate].
 Qed.
 
 Lemma dk_share_accept : forall phase d s dec idk es d',
   dk_share phase d s dec idk es = (d', DAccept) ->
-  phase = ph_Publish /\ dk_mem s (dk_gsos d) = false /\ dec = true /\ dk_K d - 1 <= Z.of_nat (List.length es) /\
-  Forall so_entry_ok es /\ dk_gsos d' = s :: dk_gsos d.
+  phase = ph_Publish /\ dk_mem s (dk_gsos d) = false /\ dk_mem s (dk_miners d) = true /\ dec = true /\
+  dk_K d - 1 <= Z.of_nat (List.length es) /\ Forall so_entry_ok es /\ ~ In SoNil es /\ dk_gsos d' = s :: dk_gsos d.
 Proof.
   intros phase d s dec idk es d' H. unfold dk_share in H.
   destruct (Z.eqb_spec phase ph_Publish) as [E|]; [|discriminate]. cbn [negb] in H.
   destruct (dk_mem s (dk_gsos d)) eqn:M; [discriminate|].
+  destruct (dk_mem s (dk_miners d)) eqn:Mm; [|discriminate]. cbn [negb] in H.
   destruct dec; [|discriminate]. cbn [negb] in H.
   destruct (Z.ltb_spec (Z.of_nat (List.length es)) (dk_K d - 1)) as [|L]; [discriminate|].
   destruct (dk_mpks_node d); [|discriminate]. cbn [negb] in H.
   destruct (so_validate idk es) eqn:V; inversion H; subst.
-  repeat split; auto. apply (so_validate_accept _ _ V).
+  pose proof (so_validate_accept _ _ V) as F.
+  repeat split; auto.
+  intro I. rewrite Forall_forall in F. exact (F SoNil I).
 Qed.
 
 Lemma dk_share_once : forall phase d s dec idk es,
@@ -212,11 +220,13 @@ Proof.
   intros. unfold dk_share. destruct (negb (Z.eqb phase ph_Publish)); [reflexivity|]. rewrite H. reflexivity.
 Qed.
 
-Lemma dk_share_no_panic_known_id : forall phase d s dec es, snd (dk_share phase d s dec true es) <> DPanic.
+Lemma dk_exec_never_panics : forall phase d t, snd (dk_exec phase d t) <> DPanic.
 Proof.
-  intros. unfold dk_share.
-  repeat match goal with |- context [if ?c then _ else _] => destruct c end; try (cbn; discriminate).
-  pose proof (so_validate_no_panic es). destruct (so_validate true es); cbn; try discriminate. congruence.
+  intros phase d t. destruct t; cbn [dk_exec].
+  - unfold dk_contribute. repeat match goal with |- context [if ?c then _ else _] => destruct c end; cbn; discriminate.
+  - unfold dk_share. repeat match goal with |- context [if ?c then _ else _] => destruct c end; try (cbn; discriminate).
+    pose proof (so_validate_no_panic id_known es). destruct (so_validate id_known es); cbn; try discriminate. congruence.
+  - unfold dk_wait. repeat match goal with |- context [if ?c then _ else _] => destruct c end; cbn; discriminate.
 Qed.
 
 Lemma dk_wait_accept : forall phase d s d',
@@ -257,82 +267,79 @@ Proof.
   rewrite H1. auto.
 Qed.
 
-(* reduceShardersList: the result has a previous sharder, or the function panics *)
+(* a validated x_percent = p/q in (0; 1] asks for at least one previous member *)
+Lemma rd_ceil_pos : forall p q n, 0 < p <= q -> 1 <= n -> 1 <= rd_ceil p q n.
+Proof.
+  intros p q n [Hp Hq] Hn. unfold rd_ceil.
+  assert (Q : 0 < q) by lia.
+  apply Z.div_le_lower_bound; [exact Q|]. nia.
+Qed.
+
+Lemma rd_magic_block_keeps_prev : forall is_prev p q n prev others,
+  0 < p <= q -> 1 <= n -> prev <> [] -> (forall x, In x prev -> is_prev x = true) ->
+  exists l, rd_select (rd_ceil p q n) prev others = Some l /\ rd_has_prev is_prev l = true.
+Proof.
+  intros is_prev p q n prev others X N P A. apply rd_select_keeps_prev; [apply rd_ceil_pos; assumption|assumption|assumption].
+Qed.
+
+(* reduceShardersList: with a previous sharder among the candidates the result always has one and never panics,
+   whatever non-negative number the reduce asks for *)
+Lemma rd_sharders_ok : forall is_prev ceilx prev others,
+  0 <= ceilx -> prev <> [] -> (forall p, In p prev -> is_prev p = true) ->
+  exists l, rd_sharders is_prev ceilx prev others = Some l /\ rd_has_prev is_prev l = true.
+Proof.
+  intros is_prev ceilx prev others C N P. unfold rd_sharders, rd_select.
+  set (x := Z.min (Z.of_nat (List.length prev)) ceilx).
+  destruct (Z.ltb_spec x 0) as [L|_]; [unfold x in L; lia|].
+  destruct (rd_has_prev is_prev (firstn (Z.to_nat x) prev ++ others)) eqn:H.
+  - eexists. split; [reflexivity|exact H].
+  - destruct prev as [|p tl]; [contradiction|]. eexists. split; [reflexivity|].
+    unfold rd_has_prev. apply existsb_exists. exists p. split; [apply in_or_app; right; left; reflexivity|].
+    apply P. left. reflexivity.
+Qed.
+
 Lemma rd_sharders_has_prev : forall is_prev ceilx prev others l,
+  (forall p, In p prev -> is_prev p = true) ->
   rd_sharders is_prev ceilx prev others = Some l -> rd_has_prev is_prev l = true.
 Proof.
-  intros is_prev ceilx prev others l H. unfold rd_sharders in H.
+  intros is_prev ceilx prev others l P H. unfold rd_sharders in H.
   destruct (rd_select ceilx prev others) as [l0|]; [|discriminate].
   destruct (rd_has_prev is_prev l0) eqn:E.
   - inversion H; subst. exact E.
-  - unfold rd_has_prev in E. rewrite (rd_filter_nil _ _ E) in H. discriminate.
+  - destruct prev as [|p tl]; [discriminate|]. inversion H; subst.
+    unfold rd_has_prev. apply existsb_exists. exists p. split; [apply in_or_app; right; left; reflexivity|].
+    apply P. left. reflexivity.
 Qed.
 
-Lemma rd_sharders_ok : forall is_prev ceilx prev others,
-  1 <= ceilx -> prev <> [] -> (forall p, In p prev -> is_prev p = true) ->
-  exists l, rd_sharders is_prev ceilx prev others = Some l /\ rd_has_prev is_prev l = true.
-Proof.
-  intros is_prev ceilx prev others C N P.
-  destruct (rd_select_keeps_prev is_prev ceilx prev others C N P) as [l [S H]].
-  exists l. split; [|exact H]. unfold rd_sharders. rewrite S, H. reflexivity.
-Qed.
-
-(* ---------- witnesses for the refutations ---------- *)
+(* ---------- examples ---------- *)
 
 Definition pw_dk : dk_state :=
   {| dk_miners := [1; 2; 3; 4]; dk_T := 3; dk_K := 3; dk_mpks_node := true; dk_mpks := [1; 2; 3; 4]; dk_gsos := []; dk_waited := [] |}.
 
-(* a client outside the DKG set (id 99) publishes K-1 null entries *)
-Lemma pw_stranger_share_accepted :
-  snd (dk_share ph_Publish pw_dk 99 true false [SoNil; SoNil]) = DAccept /\ dk_mem 99 (dk_miners pw_dk) = false.
-Proof. vm_compute. split; reflexivity. Qed.
+(* a client outside the DKG set (id 99) is refused; so are null entries and shares of a sender without MPK *)
+Lemma pw_stranger_share_refused :
+  snd (dk_share ph_Publish pw_dk 99 true false [SoSign true; SoSign true]) = DReject /\
+  snd (dk_share ph_Publish pw_dk 1 true true [SoNil; SoNil]) = DReject /\
+  snd (dk_share ph_Publish pw_dk 1 true false [SoShare true true; SoSign true]) = DReject /\
+  snd (dk_share ph_Publish pw_dk 1 true true [SoShare true true; SoSign true]) = DAccept.
+Proof. vm_compute. repeat split. Qed.
 
-(* ... or one parsable share under an id that has no MPK *)
-Lemma pw_unknown_id_panics :
-  snd (dk_share ph_Publish pw_dk 99 true false [SoShare true true; SoNil]) = DPanic.
-Proof. vm_compute. reflexivity. Qed.
-
-(* DKG member 1 contributes an MPK under the id of member 2 *)
+(* DKG member 1 names member 2 in its input: the key is recorded for member 1, member 2 can still contribute *)
 Definition pw_dk0 : dk_state :=
   {| dk_miners := [1; 2; 3; 4]; dk_T := 3; dk_K := 3; dk_mpks_node := false; dk_mpks := []; dk_gsos := []; dk_waited := [] |}.
 Lemma pw_contribute_for_other :
-  snd (dk_contribute ph_Contribute pw_dk0 1 2 true 3) = DAccept /\
-  snd (dk_contribute ph_Contribute (fst (dk_contribute ph_Contribute pw_dk0 1 2 true 3)) 2 2 true 3) = DReject.
-Proof. vm_compute. split; reflexivity. Qed.
-
-Lemma pw_refute_contribution_for_sender :
-  ~ (forall phase d s c dec n d', dk_contribute phase d s c dec n = (d', DAccept) -> c = s).
-Proof.
-  intro F. specialize (F ph_Contribute pw_dk0 1 2 true 3 (fst (dk_contribute ph_Contribute pw_dk0 1 2 true 3))).
-  assert (X : (2 : Z) = 1); [apply F; vm_compute; reflexivity | discriminate].
-Qed.
-
-Lemma pw_refute_share_from_member :
-  ~ (forall phase d s dec idk es d', dk_share phase d s dec idk es = (d', DAccept) ->
-       dk_mem s (dk_miners d) = true /\ ~ In SoNil es).
-Proof.
-  intro F. destruct (F ph_Publish pw_dk 99 true false [SoNil; SoNil] (fst (dk_share ph_Publish pw_dk 99 true false [SoNil; SoNil]))) as [M _].
-  - vm_compute. reflexivity.
-  - vm_compute in M. discriminate.
-Qed.
-
-Lemma pw_refute_no_panic : ~ (forall phase d t, snd (dk_exec phase d t) <> DPanic).
-Proof. intro F. apply (F ph_Publish pw_dk (TxShare 99 true false [SoShare true true; SoNil])). vm_compute. reflexivity. Qed.
+  dk_mpks (fst (dk_contribute ph_Contribute pw_dk0 1 2 true 3)) = [1] /\
+  snd (dk_contribute ph_Contribute (fst (dk_contribute ph_Contribute pw_dk0 1 2 true 3)) 2 2 true 3) = DAccept /\
+  snd (dk_contribute ph_Contribute (fst (dk_contribute ph_Contribute pw_dk0 1 2 true 3)) 1 3 true 3) = DReject.
+Proof. vm_compute. repeat split. Qed.
 
 Definition pw_is_prev (x : Z) : bool := Z.eqb x 1.
 
-Lemma pw_refute_keeps_prev :
-  ~ (forall is_prev ceilx prev others, prev <> [] -> (forall p, In p prev -> is_prev p = true) ->
-       exists l, rd_select ceilx prev others = Some l /\ rd_has_prev is_prev l = true).
-Proof.
-  intro F. destruct (F pw_is_prev 0 [1] [2; 3]) as [l [S H]].
-  - discriminate.
-  - intros p [E|[]]. subst. reflexivity.
-  - vm_compute in S. inversion S; subst. vm_compute in H. discriminate.
-Qed.
-
-Lemma pw_negative_x_panics : rd_select (-1) [1] [2; 3] = None /\ rd_sharders pw_is_prev 0 [1] [2; 3] = None.
-Proof. vm_compute. split; reflexivity. Qed.
+(* x_percent = 7/10 over 2 slots asks for 2 previous members; one candidate is previous: it is kept *)
+Lemma pw_selection_example :
+  rd_ceil 7 10 2 = 2 /\ rd_select (rd_ceil 7 10 2) [1] [2; 3] = Some [1; 2; 3] /\
+  rd_sharders pw_is_prev 0 [1] [2; 3] = Some [2; 3; 1].
+Proof. vm_compute. repeat split. Qed.
 
 (* a full cycle and a restart, over the generated tables, with 2 rounds per phase *)
 Definition pw_rounds (p : Z) : Z := 2.
